@@ -278,3 +278,53 @@ pub fn canonical_pairs(alpha: u32, maxlen: usize) -> Vec<Pair> {
     });
     v
 }
+
+/// Anchor-heavy pairs: 35-110 mostly unique items (long runs of consecutive anchors) with a few
+/// repeated items, where new is old with some unique items moved across one or two neighbours
+/// (often repeated ones), a few items dropped and a few repeated items added.
+pub fn anchor_heavy(rng: &mut Rng) -> Pair {
+    let l = rng.range(35, 110);
+    let mut a: Vec<u32> = (0..l as u32).map(|v| 100 + v).collect();
+    for _ in 0..rng.range(1, 4) {
+        let v = rng.below(3) as u32;
+        for _ in 0..rng.range(2, 3) {
+            let p = rng.below(a.len() + 1);
+            a.insert(p, v);
+        }
+        // sometimes as an adjacent pair
+        if rng.chance(1, 2) {
+            let p = rng.below(a.len() + 1);
+            a.insert(p, v);
+            a.insert(p, v);
+        }
+    }
+    let mut b = a.clone();
+    for _ in 0..rng.range(1, 3) {
+        // move one item across the one or two items that follow it
+        if b.len() >= 4 {
+            let p = rng.below(b.len() - 2);
+            let v = b.remove(p);
+            b.insert(p + rng.range(1, 2), v);
+        }
+    }
+    // prefer moving a unique item across a repeated pair
+    if let Some(p) = (0..b.len().saturating_sub(2)).find(|&p| b[p] >= 100 && b[p + 1] < 100 && b[p + 2] < 100) {
+        if rng.chance(2, 3) {
+            let v = b.remove(p);
+            b.insert(p + 2, v);
+        }
+    }
+    for _ in 0..rng.below(3) {
+        let p = rng.below(b.len());
+        if rng.chance(1, 2) {
+            b.remove(p);
+        } else {
+            b.insert(p, rng.below(3) as u32);
+        }
+    }
+    if rng.chance(1, 2) {
+        (a, b)
+    } else {
+        (b, a)
+    }
+}
